@@ -26,7 +26,8 @@ through the same route = shared-namespace second read); the oracle is the same.
 
 Sub-checks: valid (generated + corpus documents parse and deliver their content), prefix (EVERY prefix of corpus and
 generated documents), edit (1-2 local edits of valid documents), dup (one taxon symbol replaced by a respelling of
-another: same label, case variant, TRANSLATE token / taxon number), soup (token soups), deep (deeply nested Newick)."""
+another: same label, case variant, TRANSLATE token / taxon number), row (a NEXUS matrix row copied under an extra or
+misspelt label, or renamed), soup (token soups), deep (deeply nested Newick)."""
 import io
 import re
 import sys
@@ -46,6 +47,7 @@ CONFIG = {
              "interleaved; FASTA) of <= 400 (quick) / <= 800 (thorough) characters; (edit) 1-2 edits (delete char, "
              "delete span, delete token, insert char, replace char, insert keyword, duplicate span) of such documents; "
              "(dup) one taxon symbol replaced by another taxon's label, case variant, TRANSLATE token or number; "
+             "(row) a NEXUS matrix row copied under an extra / misspelt label or renamed; "
              "(soup) token sequences over each format's alphabet; (deep) Newick nesting depths 10..6000; (valid) the "
              "unmodified documents, which must parse on every route and deliver the abstract content they were "
              "written from; (atheris, thorough tier only) a coverage-guided campaign over bytes -> (reader variant, "
@@ -69,14 +71,17 @@ CONFIG = {
         "a declaration of NTAX/NCHAR counts only when it is the single one in the text, stands in a DIMENSIONS "
         "statement outside comments/quotes before the single MATRIX keyword, and exactly one matrix is returned; "
         "NTAX counts only when declared in the block of that MATRIX (a TAXA block's NTAX is ambiguous in files with "
-        "several TAXA blocks)",
+        "several TAXA blocks); with exactly one TAXA block (NTAX=n, n TAXLABELS, before the single MATRIX, no TREE "
+        "statements in between) a returned matrix may have fewer but never more than n rows - asserted for the "
+        "default namespace and for caller-supplied namespaces that are empty or hold only unrelated labels, since a "
+        "row label that already is a member of the namespace read into is accepted by design",
         "the process recursion limit is the 3000 set by vp_check.py; Newick nesting beyond it is a listed known finding",
     ],
 }
 
 TOTALS = {
-    "quick": {"prefix_docs": 96, "max_len": 400, "valid": 1200, "edit": 4800, "dup": 1600, "soup": 8000},
-    "thorough": {"prefix_docs": 320, "max_len": 800, "valid": 12000, "edit": 50000, "dup": 15000, "soup": 30000,
+    "quick": {"prefix_docs": 96, "max_len": 400, "valid": 1200, "edit": 4800, "dup": 1600, "row": 1200, "soup": 8000},
+    "thorough": {"prefix_docs": 320, "max_len": 800, "valid": 12000, "edit": 50000, "dup": 15000, "row": 10000, "soup": 30000,
                  "atheris_runs": 160000},
 }
 
@@ -247,6 +252,47 @@ def declared_dims(text, schema):
     return vals["NTAX"], vals["NCHAR"]
 
 
+def taxa_block_row_limit(text):
+    """Upper bound on the rows of the single matrix of a NEXUS text whose NTAX stands in a TAXA block only, else None.
+
+    The exemption of declared_dims (a TAXA block's NTAX says nothing about a matrix in files with several TAXA blocks)
+    does not apply when the text has EXACTLY ONE TAXA block, that block holds the single DIMENSIONS NTAX=n and one
+    TAXLABELS statement with exactly n plain labels, it precedes the single MATRIX, the matrix's block has no NTAX of
+    its own and no TREE / TRANSLATE statement (which may add taxa) comes before the MATRIX.  Every row label must then
+    be one of the n declared taxa (the reader enforces it with TooManyTaxaError), so a returned matrix has at most n
+    rows.  Fewer rows are legal: the reader checks the row count only against an NTAX of the matrix's own block."""
+    dims = declared_dims(text, "nexus")
+    if dims is None or dims[0] is not None:
+        return None
+    toks = [t.upper() for t in _NEXUS_TOKEN.findall(_strip_nexus(text))]
+    mpos = toks.index("MATRIX")
+    before = toks[:mpos]
+    if "TREE" in before or "TRANSLATE" in before or "TREES" in before:
+        return None
+    taxa_begins = [k for k in range(len(toks) - 1) if toks[k] == "BEGIN" and toks[k + 1] == "TAXA"]
+    if len(taxa_begins) != 1 or toks.count("TAXLABELS") != 1 or toks.count("TAXA") != 1:
+        return None
+    b = taxa_begins[0]
+    ends = [k for k in range(b, len(toks)) if toks[k] in ("END", "ENDBLOCK")]
+    if not ends or ends[0] > mpos:
+        return None
+    e = ends[0]
+    pn, pl = toks.index("NTAX"), toks.index("TAXLABELS")
+    if not (b < pn < pl < e) or toks[pl - 1] != ";":
+        return None
+    labels = []
+    k = pl + 1
+    while k < e and toks[k] != ";":
+        labels.append(toks[k])
+        k += 1
+    if k >= e or any(len(t) == 1 and t in '{}(),;:=\\"' for t in labels):
+        return None
+    ntax = int(toks[pn + 2])
+    if len(labels) != ntax or toks[k + 1] not in ("END", "ENDBLOCK"):
+        return None
+    return ntax
+
+
 # ---------------------------------------------------------------------------
 # well-formedness of what a reader returned
 # ---------------------------------------------------------------------------
@@ -288,7 +334,7 @@ def matrix_rows(m):
     return out
 
 
-def matrix_problems(m, dims):
+def matrix_problems(m, dims, max_rows=None):
     problems = []
     rows = matrix_rows(m)
     for label, cells in rows:
@@ -297,6 +343,9 @@ def matrix_problems(m, dims):
             break
     if dims is not None:
         ntax, nchar = dims
+        if max_rows is not None and len(rows) > max_rows:
+            problems.append(("rows", "the text's only TAXA block declares %d taxa, matrix has %d rows %r" % (
+                max_rows, len(rows), [r[0] for r in rows][:8])))
         if ntax is not None and len(rows) != ntax:
             problems.append(("rows", "text declares %d taxa, matrix has %d rows" % (ntax, len(rows))))
         bad = [(label, len(cells)) for label, cells in rows if len(cells) != nchar]
@@ -356,7 +405,7 @@ def recursing_function(exc):
     return max(sorted(counts), key=counts.get) if counts else None
 
 
-def run_route(ctx, route, text, schema, kwargs, matrix_type, dims, valid=False, tns=None):
+def run_route(ctx, route, text, schema, kwargs, matrix_type, dims, valid=False, tns=None, max_rows=None):
     """Returns (outcome, result or None).  Violations go through ctx.fail with a root-cause key."""
     if tns is not None:
         route_name = route + "[into a namespace of %d taxa]" % len(tns)
@@ -419,7 +468,7 @@ def run_route(ctx, route, text, schema, kwargs, matrix_type, dims, valid=False, 
                          "route %s returned tree %d in which %s on %r" % (route_name, k, msg, text[:300]))
     use_dims = dims if len(mats) == 1 else None
     for k, m in enumerate(mats):
-        for kind, msg in matrix_problems(m, use_dims):
+        for kind, msg in matrix_problems(m, use_dims, max_rows if use_dims is not None else None):
             ctx.cls("%s:matrix_%s" % (schema, kind))
             ctx.fail("returned_matrix_dimensions", "C20:%s:matrix_%s" % (schema, kind),
                      "route %s, matrix %d: %s on %r" % (route_name, k, msg, text[:300]))
@@ -456,8 +505,13 @@ def run_text(ctx, text, schema, kwargs, matrix_type, ns=None):
     bad_stmt = unbalanced_newick_statement(text) if schema == "newick" else None
     if bad_stmt is not None:
         ctx.cls("newick:has_unbalanced_statement")
+    max_rows = taxa_block_row_limit(text) if schema == "nexus" and dims is not None else None
+    if max_rows is not None:
+        ctx.cls("nexus:row_limit_from_taxa_block")
+    # the bound holds when the namespace read into starts without foreign-made members a row label could match
+    ns_bound_ok = ns is not None and ns["mode"] == "labels" and (not ns["labels"] or ns["labels"] == UNRELATED_LABELS)
     for route in routes_for(schema):
-        outcome, _ = run_route(ctx, route, text, schema, kwargs, matrix_type, dims)
+        outcome, _ = run_route(ctx, route, text, schema, kwargs, matrix_type, dims, max_rows=max_rows)
         ctx.cls("%s:%s" % (schema, outcome))
         if bad_stmt is not None and outcome in ("returns", "no_data"):
             ctx.cls("newick:unbalanced_accepted")
@@ -469,7 +523,8 @@ def run_text(ctx, text, schema, kwargs, matrix_type, ns=None):
             if tns is None:
                 ctx.cls("ns:%s:not_built" % ns["mode"])
                 continue
-            outcome, _ = run_route(ctx, route, text, schema, kwargs, matrix_type, dims, tns=tns)
+            outcome, _ = run_route(ctx, route, text, schema, kwargs, matrix_type, dims, tns=tns,
+                                   max_rows=max_rows if ns_bound_ok else None)
             ctx.cls("ns:%s:%s:%s" % (ns["mode"], schema, outcome))
 
 
@@ -609,17 +664,20 @@ def canon(schema, kwargs, text):
 
 
 def ns_for(doc, mode):
-    """Namespace description for a corruption of `doc` (slim form, optional "labels"): mode None|"own"|"unrelated"|"reread"."""
+    """Namespace description for a corruption of `doc` (slim form, optional "labels"):
+    mode None | "own" | "unrelated" | "reread" | "empty" (a caller-supplied namespace without taxa)."""
     if mode is None:
         return None
     if mode == "reread":
         return {"mode": "reread", "text": doc["text"]}
+    if mode == "empty":
+        return {"mode": "labels", "labels": []}
     if mode == "own" and doc.get("labels"):
         return {"mode": "labels", "labels": list(doc["labels"]) + UNRELATED_LABELS[:3]}
     return {"mode": "labels", "labels": UNRELATED_LABELS}
 
 
-NS_MODES = ("reread", "own", "unrelated")
+NS_MODES = ("reread", "own", "unrelated", "empty")
 
 
 def sub_prefix(ctx, case):
@@ -700,6 +758,64 @@ def sub_dup(ctx, case):
         ctx.sample("dup:%s" % d["schema"], {"text": text})
 
 
+_ROW = re.compile(r"^(\s*)('(?:[^']|'')*'|[^\s;']+)(\s+\S.*)$")
+
+
+def row_text(case):
+    """A matrix row with an extra or misspelt label: in a valid NEXUS document every MATRIX line that starts with the
+    chosen row's label (one line when sequential, one per block when interleaved) is copied under a new label
+    ("extra"), relabelled ("rename") or copied under a misspelt label ("misspelt")."""
+    text = case["doc"]["text"]
+    lines = text.split("\n")
+    rows = []
+    inside = False
+    for i, line in enumerate(lines):
+        if inside:
+            if ";" in line and not _ROW.match(line.split(";")[0] + " x"):
+                inside = False
+                continue
+            m = _ROW.match(line)
+            if m:
+                rows.append((i, m))
+            if ";" in line:
+                inside = False
+        elif line.strip().upper() == "MATRIX":
+            inside = True
+    if not rows:
+        return text
+    _, chosen = rows[case["row"] % len(rows)]
+    label = chosen.group(2)
+    if case["op"] == "misspelt" and not label.startswith("'"):
+        new = label + "x"
+    else:
+        new = ["Xtra", "'new one'", "zq9"][case["row"] % 3]
+    out = []
+    for i, line in enumerate(lines):
+        m = _ROW.match(line) if any(i == j for j, _ in rows) else None
+        if m is not None and m.group(2) == label:
+            if case["op"] == "rename":
+                out.append(m.group(1) + new + m.group(3))
+            else:
+                tail = m.group(3)
+                semi = tail.rstrip().endswith(";")
+                out.append(m.group(1) + label + (tail.rstrip()[:-1] if semi else tail))
+                out.append(m.group(1) + new + tail)
+        else:
+            out.append(line)
+    return "\n".join(out)
+
+
+def sub_row(ctx, case):
+    """case: {"doc": slim NEXUS document, "row": int, "op": "extra"|"misspelt"|"rename", "ns_mode": None|...}"""
+    d = case["doc"]
+    text = row_text(case)
+    ctx.cls("row:%s:%s" % (case["op"], "changed" if text != d["text"] else "no_matrix"))
+    run_text(ctx, text, d["schema"], d["kwargs"], d.get("matrix_type"), ns_for(d, case.get("ns_mode")))
+    if text != d["text"]:
+        ctx.nontrivial(canon(d["schema"], d["kwargs"], text))
+        ctx.sample("row:%s" % case["op"], {"text": text})
+
+
 def deep_text(case):
     d = case["depth"]
     kind = case["kind"]
@@ -726,7 +842,8 @@ def sub_deep(ctx, case):
     ctx.nontrivial(["deep", case])
 
 
-SUBCHECKS = {"valid": sub_valid, "prefix": sub_prefix, "edit": sub_edit, "dup": sub_dup, "soup": sub_soup,
+SUBCHECKS = {"valid": sub_valid, "prefix": sub_prefix, "edit": sub_edit, "dup": sub_dup, "row": sub_row,
+             "soup": sub_soup,
              "deep": sub_deep}
 
 
@@ -773,7 +890,7 @@ def run_prefixes(ctx, documents, name="prefix"):
             case.pop("labels", None)
             if doc["schema"] != "newick" or cut % 2 == 0:
                 # every route again, reading into a pre-populated namespace (mode cycles with the cut point)
-                case["ns"] = ns_for(sdoc, NS_MODES[cut % 3])
+                case["ns"] = ns_for(sdoc, NS_MODES[cut % len(NS_MODES)])
             n += 1
             ctx.evaluations += 1
             try:
@@ -954,6 +1071,14 @@ def run(ctx):
                                        "variant": st.sampled_from(DUP_VARIANTS),
                                        "ns_mode": st.sampled_from((None, None) + NS_MODES)})
     runner.run_given(ctx, "dup", dup_cases, sub_dup, per(tot["dup"]))
+
+    # (2c) NEXUS matrix with an extra / misspelt / renamed row label
+    row_cases = st.fixed_dictionaries({
+        "doc": docs.documents(max_len=max_len, schemas=("nexus",), large=large).filter(
+            lambda d: bool(d["content"]["matrices"])).map(slim),
+        "row": st.integers(0, 50), "op": st.sampled_from(["extra", "extra", "misspelt", "rename"]),
+        "ns_mode": st.sampled_from((None, "empty", "empty", "unrelated", "own", "reread"))})
+    runner.run_given(ctx, "row", row_cases, sub_row, per(tot["row"]))
 
     # (3) token soup
     runner.run_given(ctx, "soup", soup_cases(), sub_soup, per(tot["soup"]))
